@@ -31,7 +31,7 @@ TEXT = {
     "C04": ("Hypothesis PBT + exhaustive small domain: set-algebra oracle over presented coordinates, payload identity",
             "Generated k<=4 operand sets (leaf / 2-level, owned / unowned, C / U format, int and tuple coordinates of equal "
             "and mixed arity) checked against coordinate-set algebra, payload identity (is), fresh defaults, masks, "
-            "re-iteration and operand/rank-list immutability; all pairs of leaf fibers over shape<=2 (quick) or <=3 "
+            "re-iteration, operators asked again after an in-place update of an element, and operand/rank-list immutability; all pairs of leaf fibers over shape<=2 (quick) or <=3 "
             "(thorough) enumerated completely.",
             "Trusts the builders and the per-coordinate state model; shapes<=7, k<=4; U format on owned fibers and on unowned "
             "leaf fibers; a default per operand."),
@@ -51,7 +51,7 @@ TEXT = {
             "shapes<=4."),
     "C07": ("Hypothesis PBT: traversal requests vs list model (presented / dense), payload identity, snapshot deltas",
             "Generated fibers (leaf / 2-level, C / U format, active ranges, explicit defaults) with 1-5 traversal requests "
-            "each, covering all iterators, reference forms, dense co-iteration, project / prune and lazy re-iteration, "
+            "each, covering all iterators, reference forms, dense co-iteration, project / prune, lazy re-iteration and interleaved traversals of one fiber, "
             "compared with a list model; tree snapshots before/after.",
             "Trusts the builders; start_pos restricted to legal shortcuts; a U-format fiber gets an active range only if it "
             "encloses all stored elements; shapes<=8."),
@@ -87,7 +87,7 @@ TEXT = {
             "Generated rectangular nests of depth 1-4 (all-default, non-zero defaults, floats) and tensors derived by "
             "swizzle / flatten / split chains (tuple coordinates, tuple shapes); content, shape, rank ids, names checked "
             "after every conversion; rank-0 enumerated; fromRandom reproducibility, bounds and density-1 fill.",
-            "YAML / dict forms carry no default (documented Todo): defaults are re-applied before comparing."),
+            "A tensor's YAML file must bring back its leaf default (P44, repaired); the fiber YAML / dict forms have no place for a default: it is passed again (default=) where the loader takes one."),
     "C14": ("Hypothesis PBT: expected-attribute table written from the docstrings, coordinate-in-shape and "
             "iterActive==iterOccupancy invariants",
             "Generated tensors (authoritative / estimated shapes, non-zero defaults, per-rank formats, mutability, every "
@@ -98,7 +98,7 @@ TEXT = {
     "C15": ("Hypothesis PBT over kernels x metrics configurations x session pre-histories: independent operation counters, "
             "on/off and fresh/after-history differential",
             "Generated kernels run with collection off, in a fresh session, and again after 0-3 earlier sessions (other "
-            "kernels, matchRanks, associateShape, other flush thresholds); results and stored trees on vs off, Metrics.dump "
+            "kernels, matchRanks, associateShape, other flush thresholds; now and then given up with unconsumed in-memory traces); results and stored trees on vs off, Metrics.dump "
             "counts vs the interpreter's own counters, numIters vs bodies executed, consumable vs file rows, identical "
             "dump and byte-identical trace files fresh vs after history.",
             "Only the loop nest runs inside a session (operands prepared before); matchRanks closures never join two loop "
@@ -123,7 +123,7 @@ TEXT = {
     "C18": ("Hypothesis PBT + exhaustive small domain: footprint sums recomputed from a raw tree walk",
             "Generated tensors (depth 1-3, explicit defaults, empty sub-fibers, all build routes) x random per-rank format "
             "specifications with missing fields; every Format query compared with sums over a raw walk; all trees over "
-            "tiny shapes x all C/U assignments enumerated with place-value bit widths.",
+            "tiny shapes x all C/U assignments enumerated with place-value bit widths; tensors without declared shape that grow after construction (stored fibers only).",
             "Trusts the raw walk of Fiber.coords/payloads and declared (authoritative) shapes; depth<=3, shapes<=5."),
     "C19": ("Hypothesis PBT: independent two-finger / skip-ahead / leader-follower counters and merge-cost model, "
             "batch-invariance metamorphic relation",
